@@ -2,219 +2,21 @@
 
 package upgrader_test
 
-import (
-	"encoding/json"
-	"fmt"
-	"os"
-	"runtime"
-	"testing"
-	"time"
+// C04, part "upgrade" (connection level). The scenario runner, the fault menu and the audit live in
+// x/verif/memtpt (shared with part "tcpdial"); this file has to be in the external test package because
+// p2p/security/{noise,tls} import the upgrader.
 
-	"github.com/libp2p/go-libp2p/x/verif/memnet"
+import (
+	"testing"
+
+	"github.com/libp2p/go-libp2p/p2p/net/upgrader"
 	"github.com/libp2p/go-libp2p/x/verif/memtpt"
 	"github.com/libp2p/go-libp2p/x/verif/vrep"
 )
 
-var c04Seed = vrep.Seed()
-
-// c04Watchdog aborts the worker (exit 3 = infrastructure, no verdict) when one case does not finish in
-// real time: inside a bubble that can only happen when a goroutine blocks on something synctest does not
-// own (a mutex held forever, real I/O), which virtual time cannot resolve.
-func c04Watchdog(r *vrep.Result, what *string) (stop func()) {
-	tm := time.AfterFunc(240*time.Second, func() {
-		buf := make([]byte, 1<<20)
-		buf = buf[:runtime.Stack(buf, true)]
-		fmt.Fprintf(os.Stderr, "C04 watchdog: case %s did not finish within 240s of real time\n%s\n", *what, buf)
-		r.Cap("watchdog: case %s did not finish within 240s of real time (no verdict)", *what)
-		r.Flush()
-		os.Exit(3)
-	})
-	return func() { tm.Stop() }
-}
-
-// c04Cases builds the full case list of one configuration from its fault-free dry runs.
-func c04Cases(cfg memtpt.Config, dry *c04Result, variants []c04Variant, extraScenarios bool) []c04Case {
-	var cases []c04Case
-	for _, v := range variants {
-		add := func(f c04Fault) { cases = append(cases, c04Case{Cfg: cfg, Scenario: "echo", Variant: v, Fault: f}) }
-		for si, side := range []string{"out", "in"} {
-			// one index beyond the dry-run count: the position "after the last call" (usually not reached)
-			for k := 0; k <= dry.Ops[si]; k++ {
-				for _, io := range memnet.IOFaults {
-					add(c04Fault{Kind: "io", Side: side, K: k, What: io.String()})
-				}
-				add(c04Fault{Kind: "cancel", Side: side, K: k})
-				add(c04Fault{Kind: "lnclose", Side: side, K: k})
-				add(c04Fault{Kind: "connclose", Side: side, K: k})
-			}
-			for _, hook := range memnet.GaterHooks {
-				for n := 0; n < dry.GaCalls[si][hook]; n++ {
-					add(c04Fault{Kind: "gater", Side: side, K: n, What: hook})
-					add(c04Fault{Kind: "cancelcall", Side: side, K: n, What: hook})
-				}
-			}
-			for _, call := range memnet.RcmgrCalls {
-				for n := 0; n < dry.RcCalls[si][call]; n++ {
-					add(c04Fault{Kind: "rcmgr", Side: side, K: n, What: call})
-					add(c04Fault{Kind: "cancelcall", Side: side, K: n, What: call})
-				}
-			}
-		}
-	}
-	if extraScenarios {
-		for _, s := range []string{"noaccept", "threshold", "threshold-lnclose", "queued-lnclose"} {
-			cases = append(cases, c04Case{Cfg: cfg, Scenario: s, Fault: c04Fault{Kind: "none"}})
-		}
-		if !cfg.PSK {
-			cases = append(cases, c04Case{Cfg: cfg, Scenario: "forcepnet", Fault: c04Fault{Kind: "none"}})
-		}
-	}
-	return cases
-}
-
 func TestVerifC04Upgrade(t *testing.T) {
 	r := vrep.New("C04", "upgrade")
 	defer r.Flush()
-	cur := "-"
-	defer c04Watchdog(r, &cur)()
-
-	if p := vrep.ReplayPath(); p != "" {
-		c04Replay(t, r, p)
-		return
-	}
-
-	// quick: each variant on its own; thorough: their cross product
-	variants := []c04Variant{{}, {LateAccept: true}, {InClosesFirst: true}, {ShortDial: true}}
-	if vrep.Thorough() {
-		variants = nil
-		for _, a := range []bool{false, true} {
-			for _, b := range []bool{false, true} {
-				for _, c := range []bool{false, true} {
-					variants = append(variants, c04Variant{InClosesFirst: a, LateAccept: b, ShortDial: c})
-				}
-			}
-		}
-	}
-	cfgs := memtpt.Configs()
-	r.Bounds["configurations"] = fmt.Sprint(cfgs)
-	r.Bounds["faults_per_run"] = 1
-	r.Bounds["io_faults"] = fmt.Sprint(memnet.IOFaults)
-	r.Bounds["variants(teardown order, late Accept, short dial timeout)"] = len(variants)
-	r.Bounds["scenarios"] = "echo x full fault menu; noaccept, threshold, threshold-lnclose, queued-lnclose, forcepnet fault-free"
-
-	shard, nshards := vrep.Shard()
-	deadline := vrep.Deadline()
-	distinct := map[string]struct{}{}
-	classes := map[string]struct{}{}
-	idx := 0
-	notReached := 0
-	for _, cfg := range cfgs {
-		// fault-free dry runs: the baseline must succeed, be clean, and count the interception points
-		var dry *c04Result
-		stable := true
-		for rep := 0; rep < 2; rep++ {
-			cur = fmt.Sprintf("%s dry run %d", cfg, rep)
-			d := c04Run(t, c04Case{Cfg: cfg, Scenario: "echo", Fault: c04Fault{Kind: "none"}})
-			r.Executions++
-			if d.Infra != "" {
-				r.Cap("configuration %s: dry run failed for a harness reason: %s", cfg, d.Infra)
-				dry = nil
-				break
-			}
-			if d.OutStage != "ok" || d.InStage != "accepted" || d.Post != "echo-ok" {
-				r.Violate("baseline-failed", fmt.Sprintf("%s: the fault-free scenario did not succeed: out=%s (%s) in=%s post=%s", cfg, d.OutStage, d.OutErr, d.InStage, d.Post), d)
-				dry = nil
-				break
-			}
-			for _, v := range d.Vios {
-				r.Violate(v.Key+"/baseline", fmt.Sprintf("%s fault-free: %s", cfg, v.Desc), d)
-			}
-			if dry != nil && (dry.Kinds != d.Kinds) {
-				stable = false
-			}
-			dry = d
-		}
-		if dry == nil {
-			continue
-		}
-		r.Outcome(dry.class())
-		if shard == 0 {
-			r.Note("%s: dry run: %d raw I/O calls on the outbound end (%s), %d on the inbound end (%s); rcmgr calls out=%v in=%v; gater calls out=%v in=%v; op sequence reproducible=%v",
-				cfg, dry.Ops[0], dry.Kinds[0], dry.Ops[1], dry.Kinds[1], dry.RcCalls[0], dry.RcCalls[1], dry.GaCalls[0], dry.GaCalls[1], stable)
-			dry.Trace = nil
-			r.Sample(dry)
-		}
-		for _, cs := range c04Cases(cfg, dry, variants, true) {
-			idx++
-			if idx%nshards != shard {
-				continue
-			}
-			if time.Now().After(deadline) {
-				r.Cap("deadline reached at case %d (%s)", idx, cs)
-				return
-			}
-			cur = cs.String()
-			res := c04Run(t, cs)
-			r.Executions++
-			if res.Infra != "" {
-				r.Cap("case %s: harness problem, no verdict: %s", cs, res.Infra)
-				continue
-			}
-			if cs.Fault.Kind != "none" && !res.Fired {
-				notReached++
-				r.Outcome(fmt.Sprintf("%s|fault position not reached", cs.Cfg))
-			} else {
-				distinct[cs.String()] = struct{}{}
-				cl := res.class()
-				if _, ok := classes[cl]; !ok {
-					classes[cl] = struct{}{}
-					r.Outcome(cl)
-				} else {
-					r.Outcome(cl)
-				}
-			}
-			for _, v := range res.Vios {
-				fmt.Printf("C04-VIO %s  %s  out=%s in=%s post=%s\n", v.Key, cs, res.OutStage, res.InStage, res.Post)
-				r.Violate(v.Key, fmt.Sprintf("%s: %s", cs, v.Desc), res)
-			}
-			if len(res.Vios) == 0 && res.Fired && len(r.Samples) < 6 && idx%97 == shard {
-				res.Trace = nil
-				r.Sample(res)
-			}
-		}
-	}
-	r.Distinct = int64(len(distinct))
-	r.Note("cases whose fault position was not reached (counted as executions, not as distinct cases): %d; distinct outcome classes: %d", notReached, len(classes))
-}
-
-// c04Replay re-executes exactly the case stored in a replay file and prints its trace.
-func c04Replay(t *testing.T, r *vrep.Result, path string) {
-	b, err := os.ReadFile(path)
-	if err != nil {
-		r.Cap("replay: %v", err)
-		return
-	}
-	var f struct {
-		Replay struct {
-			Case c04Case `json:"case"`
-		} `json:"replay"`
-	}
-	if err := json.Unmarshal(b, &f); err != nil {
-		r.Cap("replay: %v", err)
-		return
-	}
-	res := c04Run(t, f.Replay.Case)
-	r.Executions++
-	r.Distinct = 1
-	fmt.Printf("C04 replay of %s\n  out=%s (%s) in=%s post=%s fired=%v\n  out end: %d ops %s\n  in end:  %d ops %s\n", f.Replay.Case, res.OutStage, res.OutErr,
-		res.InStage, res.Post, res.Fired, res.Ops[0], res.Kinds[0], res.Ops[1], res.Kinds[1])
-	for _, l := range res.Trace {
-		fmt.Println("  " + l)
-	}
-	for _, v := range res.Vios {
-		fmt.Printf("  VIOLATION %s: %s\n", v.Key, v.Desc)
-		r.Violate(v.Key, v.Desc, res)
-	}
-	r.Outcome(res.class())
-	r.Sample(res)
+	memtpt.ThresholdCount = upgrader.C04ThresholdCount
+	memtpt.Enumerate(t, r, memtpt.EnumOptions{ExtraScenarios: true, RawDialFaults: true})
 }
